@@ -1,5 +1,6 @@
 """check driver: weave every unit of a property from /repo's current tree, run the verifiers, classify, write evidence."""
 import os
+import re
 import sys
 import json
 import time
@@ -131,6 +132,9 @@ def vacuity_probe(name):
     if woven is None:
         return {'unit': name, 'status': 'undecided', 'reason': res.reason}
     n_probes = woven.count('/*vacuity-probe*/')
+    if n_probes == 0 and not re.search(r'^//@extract .* fn \w+\s*$', open(vrs).read(), re.M):
+        # a pure theory unit (lemmas only, no function of /repo under contract): nothing to probe; its canary still has to fail
+        return {'unit': name, 'probes': 0, 'refuted': 0, 'gave_up': 0, 'status': 'ok', 'note': 'theory unit without code regions'}
     unit.run_verus(res, woven, timeout=900, rlimit=5)
     probe_lines = set(k + 1 for k, ln in enumerate(woven.split('\n')) if '/*vacuity-probe*/' in ln)
     wl = woven.split('\n')
